@@ -71,7 +71,9 @@ def cases(draw, max_gaps=11):
     v, pu, du = draw(st.sampled_from(CONFIGS))
     tol = draw(st.sampled_from(TOLS))
     ng = draw(st.sampled_from([0, 1, 1, 2, 2, 3, 3, 4, 5, 6, 8, max_gaps]))
-    kpool = st.one_of(st.sampled_from([-16, -15, -8, -4, -2, -1, 0, 0, 0, 1, 2, 3, 4, 8, 16, 17, 32]), st.integers(-16, 32))       # -16: the time stamp is repeated (gap 0)
+    # -16: the time stamp is repeated (gap 0); below -16: the time stamp goes back (a negative gap lies outside every band, and the
+    # next gap is measured from the stamp that was supplied last)
+    kpool = st.one_of(st.sampled_from([-16, -15, -8, -4, -2, -1, 0, 0, 0, 1, 2, 3, 4, 8, 16, 17, 32, -24, -32]), st.integers(-16, 32))
     ks = [draw(kpool) for _ in range(ng)]
     t0k = draw(st.sampled_from([0, 0, 1, 4, 40, -8]))
     mode = draw(st.sampled_from(['online', 'offline']))
